@@ -3,7 +3,7 @@ rejected (C01), so every direct `Err(..)` in the decode closure must be one of t
 rejections; a new one (an extra plausibility test) alarms until it is reviewed."""
 import re
 from collections import Counter
-from terms import FA
+from terms import FA, same_agg_through_phi
 import panics
 
 EXPECTED = [
@@ -39,9 +39,10 @@ def rule_reject_inventory(prog, res):
                     if fa is None:
                         fa = FA(f, prog)
                     v = fa.rv_term(s["rv"], (b, i))
-                    if not (v.args[3] and v.args[3][0].op == "agg"):
+                    e_ = same_agg_through_phi(fa, v.args[3][0]) if v.args[3] else None
+                    if not (e_ is not None and e_.op == "agg"):
                         continue        # a propagated error (the payload of another call's Err), not a refusal decided here
-                    var = v.args[3][0].args[2]
+                    var = e_.args[2]
                     got[var] += 1
         want = {}
         why = "no direct rejection expected in this function"
@@ -93,9 +94,10 @@ def rule_encode_reject_inventory(prog, res, only=None):
                     if fa is None:
                         fa = FA(f, prog)
                     v = fa.rv_term(s["rv"], (b, i))
-                    if not (v.args[3] and v.args[3][0].op == "agg"):
+                    e_ = same_agg_through_phi(fa, v.args[3][0]) if v.args[3] else None
+                    if not (e_ is not None and e_.op == "agg"):
                         continue        # a propagated error (the payload of another call's Err), not a refusal decided here
-                    var = v.args[3][0].args[2]
+                    var = e_.args[2]
                     got[var] += 1
         want = {}
         why = "no direct refusal expected in this function"
